@@ -174,28 +174,28 @@ inductive Res
   | err (e : Err)
   deriving DecidableEq, Repr
 
-/-- `vals[attr] if attr in vals else attr.load(obj)` then the read bit of [Attribute.__get__] -/
-def readCore (cfg : Cfg) (guarded : Bool) (s : Sess) (db : Db) (cid : Nat) (a : Attr) : Sess × Except Err Val :=
+/-- `attr.load(obj)` when the value is not in `_vals_`: lazy column ([Attribute.load] + [Attribute.db_set]) or the
+    whole row ([Entity._load_]) -/
+def readLoad (cfg : Cfg) (guarded : Bool) (s : Sess) (db : Db) (cid : Nat) (a : Attr) : Sess × Option Err :=
   let o := s.c cid
-  if !o.present then (s, .error .other) else
-  let r : Sess × Option Err :=
-    match o.vals a with
-    | some _ => (s, none)
-    | none =>
-      if cfg.lazy a then
-        -- [Attribute.load] lazy branch: SELECT the column, then [Attribute.db_set]
-        match db.find? (fun r => r.1 == cid) with
-        | none => (s, some .other)
-        | some row =>
-          let nv := rowVal row a
-          if o.dbvals a == some nv then (s, none)          -- db_set returns early; `_vals_[attr]` is then missing
-          else if o.rbits a then (s, some .unrepeatable)
-          else (setC s cid { o with dbvals := upd o.dbvals a (some nv), vals := upd o.vals a (some nv) }, none)
-      else
-        -- [Entity._load_]
-        match fetchRows guarded (nonLazy cfg) s (db.filter (fun r => r.1 == cid)) with
-        | (s1, _, some e) => (s1, some e)
-        | (s1, objs, none) => if objs.contains cid then (s1, none) else (s1, some .unrepeatable)
+  match o.vals a with
+  | some _ => (s, none)
+  | none =>
+    if cfg.lazy a then
+      match db.find? (fun r => r.1 == cid) with
+      | none => (s, some .other)
+      | some row =>
+        let nv := rowVal row a
+        if o.dbvals a == some nv then (s, none)          -- db_set returns early; `_vals_[attr]` is then missing
+        else if o.rbits a then (s, some .unrepeatable)
+        else (setC s cid { o with dbvals := upd o.dbvals a (some nv), vals := upd o.vals a (some nv) }, none)
+    else
+      match fetchRows guarded (nonLazy cfg) s (db.filter (fun r => r.1 == cid)) with
+      | (s1, _, some e) => (s1, some e)
+      | (s1, objs, none) => if objs.contains cid then (s1, none) else (s1, some .unrepeatable)
+
+/-- `return obj._vals_[attr]` and the read bit of [Attribute.__get__] -/
+def readFinish (cfg : Cfg) (r : Sess × Option Err) (cid : Nat) (a : Attr) : Sess × Except Err Val :=
   match r with
   | (s1, some e) => (s1, .error e)
   | (s1, none) =>
@@ -205,11 +205,20 @@ def readCore (cfg : Cfg) (guarded : Bool) (s : Sess) (db : Db) (cid : Nat) (a : 
     | some v =>
       (setC s1 cid { o1 with rbits := fun x => o1.rbits x || (x == a && !cfg.volatile a) }, .ok v)
 
+/-- `vals[attr] if attr in vals else attr.load(obj)` then the read bit of [Attribute.__get__] -/
+def readCore (cfg : Cfg) (guarded : Bool) (s : Sess) (db : Db) (cid : Nat) (a : Attr) : Sess × Except Err Val :=
+  if !(s.c cid).present then (s, .error .other)
+  else readFinish cfg (readLoad cfg guarded s db cid a) cid a
+
+/-- `if setdata is None: setdata = obj._vals_[attr] = SetData()` -/
+def ensureKids (s : Sess) (p : Nat) : Sess :=
+  match s.kids p with
+  | none => setKids s p SetData.empty
+  | some _ => s
+
 /-- [Set.load], one-to-many, not prefetching -/
 def loadColl (cfg : Cfg) (guarded : Bool) (s : Sess) (db : Db) (p : Nat) : Sess × Option Err :=
-  let s0 := match s.kids p with
-    | none => setKids s p SetData.empty
-    | some _ => s
+  let s0 := ensureKids s p
   match s0.kids p with
   | none => (s0, some .other)
   | some sd =>
@@ -271,9 +280,7 @@ def exec (cfg : Cfg) (guarded : Bool) (s : Sess) (db : Db) : Op → Sess × Res
       (setKids s p { sd with count := some n }, .num n)
   | .isEmpty p =>
     let viaSql : Unit → Sess × Res := fun _ =>
-      let s0 := match s.kids p with
-        | none => setKids s p SetData.empty
-        | some _ => s
+      let s0 := ensureKids s p
       match fetchRows guarded (nonLazy cfg) s0 ((db.filter (fun r => rowVal r refAttr == (p : Int))).take 1) with
       | (s1, _, some e) => (s1, .err e)
       | (s1, _, none) =>
